@@ -17,6 +17,7 @@ ASSUMPTIONS = [
     "sqrt theorems assume p prime (hypothesis Nat.Prime p); primality of the 34 curve constants is a hypothesis (DESIGN.md section 4)",
     "the gmpy/gmpy2 variants of inverse_mod are not modelled (not installed); the pre-3.8 fallback loop is translated and proved equal "
     "to the live variant for m >= 1, gcd(a, m) = 1",
+    "no theorem of C15 is partial: the p = 1 (mod 8) branch (sqrt_1mod8) is proved in full, incl. existence of b and the asserts",
 ]
 
 
@@ -42,9 +43,30 @@ def curve_moduli():
     return out
 
 
+LEANCHECK = ["Props.C15", "Proofs.NTInv", "Proofs.NTInvFallback", "Proofs.NTPow", "Proofs.NTJacobi", "Proofs.NTSqrt",
+             "Proofs.NTCip1", "Proofs.NTCip2", "Proofs.NTCip", "Proofs.NTCipPoly"]
+
+
+def dead_inverse_mod():
+    """the pre-3.8 fallback `inverse_mod` (dead on this interpreter), compiled from the source text of the working tree"""
+    import ast, os
+    from translate import gen_nt
+    tree = ast.parse(open(os.path.join(common.SRC, "ecdsa", "numbertheory.py")).read())
+    arms = gen_nt._find_inverse_fallback(tree)
+    f = [x for x in arms[-1][1] if isinstance(x, ast.FunctionDef) and x.name == "inverse_mod"][0]
+    ns = {}
+    exec(compile(ast.fix_missing_locations(ast.Module(body=[f], type_ignores=[])), "numbertheory.py:fallback", "exec"), ns)
+    return ns["inverse_mod"]
+
+
 def correspond(ctx):
     from ecdsa import numbertheory as nt
     rng = ctx.rng
+    try:
+        fb = dead_inverse_mod()
+    except Exception as e:  # noqa
+        fb = None
+        ctx.problem("correspondence", "fallback inverse_mod could not be extracted from the source", e)
     live = nt.inverse_mod.__code__.co_names
     if "pow" not in live or nt.GMPY or nt.GMPY2:
         ctx.problem("correspondence", "inverse_mod is not the pow(a, -1, m) variant on this interpreter: the model assumes it")
@@ -53,13 +75,15 @@ def correspond(ctx):
     for m in list(range(-6, 60 if ctx.quick else 200)):
         for a in range(-2 * abs(m) - 1, 2 * abs(m) + 2):
             c.add("inverse_mod %d %d" % (a, m), lambda: str(nt.inverse_mod(a, m)), "small" if math.gcd(a, m) == 1 else "small.noncoprime")
-            if m >= 1 and math.gcd(a, m) == 1:
-                pass
+            if fb is not None:
+                c.add("inverse_mod_fallback %d %d" % (a, m), lambda: str(fb(a, m)), "fallback")
     big = [2 ** 61 - 1, 2 ** 64, 10 ** 18 + 9, 2 ** 255 - 19, -(2 ** 61 - 1), 2 ** 127 - 1, 3 ** 80] + [m for _, m in curve_moduli()]
     for m in big:
         for a in [0, 1, -1, 2, -2, m - 1, m + 1, -m - 1, -m + 1, 2 * m + 1, m, -m, 3 * m, m * m + 1, m // 2, m // 3, 3, 9, 6] + \
                 [rng.getrandbits(rng.choice([10, 80, 300, 700])) * rng.choice([1, -1]) for _ in range(4 if ctx.quick else 30)]:
             c.add("inverse_mod %d %d" % (a, m), lambda: str(nt.inverse_mod(a, m)), "large")
+            if fb is not None and m > 0:
+                c.add("inverse_mod_fallback %d %d" % (a, m), lambda: str(fb(a, m)), "fallback.large")
     c.run()
     # ---- jacobi
     c = Corr(ctx, "jacobi")
